@@ -66,6 +66,19 @@ def observe(x, sizes=True, anon=False, depth=0):
     return ["?", type(x).__name__]
 
 
+def values_only(o):
+    """Observation without recorded sizes and without the scalar wrapper type names (bit-field values are plain ints when
+    parsed by one reader and typed ints in defaults; T(b"x") shortcuts yield plain bytes): field VALUES only."""
+    if isinstance(o, list) and o:
+        if o[0] == "S":
+            return ["S", o[1], [[n, values_only(v)] for n, v in o[2]]]
+        if o[0] in ("i", "f", "b", "s"):
+            return [o[0], o[2]]
+        if o[0] == "L":
+            return ["L", [values_only(e) for e in o[2]]]
+    return o
+
+
 def exc_name(e: BaseException) -> str:
     return type(e).__name__
 
